@@ -73,12 +73,13 @@ Theorem C10_replace_refuted :
 Proof. exact replace_breaks_usage. Qed.
 Print Assumptions C10_replace_refuted.
 
-(* every single fail-before fault addressed as (method, target, ordinal) is a fault at some call index k *)
+(* every single fail-before fault addressed as (method, target, ordinal) is a fault at some index k of the
+   faultable calls (store, resource manager, engine, WAL, locks; a channel send is not a fault position) *)
 Theorem C10_fault_addresses : forall A (p : cprog A) (s : ist call world key),
   (forall f, i_fault s = Some f -> f_what f = FailBefore) ->
   exists k, (i_hit s = true -> k = None) /\
     exists s' a k', crun p s = (s', Some a) /\ crunk p (i_world s) k = (i_world s', k', a).
-Proof. exact (run_is_runk call reply world key key_eqb key_of exec fail_reply). Qed.
+Proof. exact (run_is_runk call reply world key key_eqb key_of exec fail_reply is_faultable unfaultable_has_no_key). Qed.
 Print Assumptions C10_fault_addresses.
 
 (* the hypotheses are satisfiable *)
